@@ -252,6 +252,24 @@ theorem url_total (env : Env) (t : Text) :
   | ok u => exact Or.inl ⟨u, rfl⟩
   | error e => rw [ofText_err h]; exact Or.inr rfl
 
+/-- the port text is handed to `int()`: whatever it is - digits of any script, superscript or circled
+    digits (`str.isdigit` but not decimal), fractions, letters, white space of any kind - the outcome is a
+    port, no port (empty text), or URLParseError; no other exception -/
+theorem port_total (s : Text) :
+    (∃ p, parsePort s = .ok p) ∨ parsePort s = .error .urlParseError := by
+  cases h : parsePort s with
+  | ok p => exact Or.inl ⟨p, rfl⟩
+  | error e => rw [parsePort_err h]; exact Or.inr rfl
+
+/- ARABIC-INDIC THREE ONE = 31; NO-BREAK SPACE 8 IDEOGRAPHIC SPACE = 8; 1_0 = 10;
+   SUPERSCRIPT TWO, CIRCLED DIGIT ONE, VULGAR FRACTION ONE HALF, U+001C 1, MINUS SIGN 1: URLParseError -/
+example : (parsePort [0x663, 0x661]).toOption = some (some 31) := by decide +kernel
+example : (parsePort [0xA0, 56, 0x3000]).toOption = some (some 8) := by decide +kernel
+example : (parsePort [49, 95, 48]).toOption = some (some 10) := by decide +kernel
+example : (parsePort [0xB2]).toOption = none ∧ (parsePort [0x2460]).toOption = none ∧
+    (parsePort [0xBD]).toOption = none ∧ (parsePort [0x1C, 49]).toOption = none ∧
+    (parsePort [0x2212, 49]).toOption = none := by decide +kernel
+
 /-- the loop of `find_all_links` never raises, whatever the regular expression matched -/
 theorem find_all_links_total (env : Env) (o : LinkOpts) (ms : List (Text × Text)) (tail : Text) :
     ∃ r, findAllLinks env o ms tail = .ok r := findAllLinks_ok env o ms tail
